@@ -6,7 +6,7 @@ Extraction Language OCaml.
 
 Extraction "Extract/model.ml" conn_set calc_single alternatives calc_allnodes find_scenario fwd_entry rev_entry
   fwd_index rev_index sorted_fwd sorted_rev all_combs mk_connset
-  wf_data_b pos_hops_b uniform_wait_b wf_tables_b wf_params_b valid_itinerary_b limits_ok_b totals_ok_b walk_dists_ok_b
+  wf_data_b pos_hops_b uniform_wait_b wf_tables_b wf_params_b valid_itinerary_b limits_ok_b totals_ok_b walk_dists_ok_b vehicle_dists_ok_b
   earliest_arrival_ref latest_departure_ref reach_map_fwd_ref reach_map_rev_ref
   service_from_origin_b service_to_destination_b route_lines sort_nat list_eqb
   optimize OPT_FUEL find_conn emit minw_true delete_excluded all_inclusive
